@@ -226,4 +226,21 @@ def step():
 
 for _ in range(steps):
     step()
+
+# ---- a section of its own after the program (own generator): named DIMENSIONLESS units (radian, degree, arcminute, ...)
+# as factors of compound units, with positive and negative exponents, converted among themselves
+rng3 = random.Random(seed * 104729 + 7)
+dimless = []
+for name, u in sorted(Unit._by_name.items()):
+    if u is not One and not any(u.dimension.exponents) and u not in dimless and len(u.factors) == 1 and conversions._ratios.get(u):
+        dimless.append(u)
+carriers = [One] + [classes[d][0] for d in dims[:6]]
+for _ in range(0 if len(dimless) < 2 else max(24, steps // 40)):
+    a, b = rng3.sample(dimless, 2)
+    e = rng3.choice([1, -1, -1, 2, -2])
+    c = rng3.choice(carriers) ** rng3.choice([1, -1])
+    m = rng3.choice([1, 2.5, Decimal("1.5"), 360, 1e-3])
+    guard(lambda: (m * (a ** e * c)).in_unit(b ** e * c))
+    if rng3.random() < 0.3:
+        guard(lambda: (m * (c * a ** e)).in_unit(c * b ** e))
 ops_recorder.finish()
